@@ -29,6 +29,22 @@ type jdb struct {
 	// fault injection (profile rawfaults): the failAt-th Set from now on fails (0 = none); injected counts
 	failAt   int
 	injected int
+	// the readFailAt-th Get/Has from now on fails (0 = none)
+	readFailAt    int
+	injectedReads int
+}
+
+var errInjectedRead = errors.New("injected: read failed (disk error)")
+
+func (d *jdb) readFault() bool {
+	if d.readFailAt > 0 {
+		d.readFailAt--
+		if d.readFailAt == 0 {
+			d.injectedReads++
+			return true
+		}
+	}
+	return false
 }
 
 var errInjectedWrite = errors.New("injected: write failed (disk error)")
@@ -53,11 +69,17 @@ type jbucket struct {
 
 func (b *jbucket) Get(key []byte) ([]byte, error) {
 	b.d.gets++
+	if b.d.readFault() {
+		return nil, errInjectedRead
+	}
 	return b.inner.Get(key)
 }
 
 func (b *jbucket) Has(key []byte) (bool, error) {
 	b.d.gets++
+	if b.d.readFault() {
+		return false, errInjectedRead
+	}
 	return b.inner.Has(key)
 }
 
